@@ -252,6 +252,22 @@ pub fn run(tier: &str) -> i32 {
         let root = sp.env.get(&sp.root).clone();
         progs.push(Prog { key: format!("also-global|{}", sp.key), src: sp.src.clone(), structs: vec![root], entries: vec![("vs_main".to_string(), vec![Some(0)])] });
     }
+    // member types written through `alias` declarations (every 4th program)
+    {
+        let n0 = progs.len();
+        for i in 0..n0 {
+            if thorough || i % 4 == 1 {
+                if let Some(src) = alias_types(&progs[i].src) {
+                    if naga_check(&src).is_ok() {
+                        let mut q = progs[i].clone();
+                        q.key = format!("{}|aliased-types", q.key);
+                        q.src = src;
+                        progs.push(q);
+                    }
+                }
+            }
+        }
+    }
     // entry points of other stages declared before / between the vertex entries
     {
         let n0 = progs.len();
